@@ -880,6 +880,77 @@ def _groups(mt):
     return "match" + "".join(" %s=%s" % (k, enhex(v)) for k, v in mt.groupdict().items() if v is not None)
 
 
+class DAltReduced(Op):
+    """Reduced-precision alternative spellings (year-month, year only, date with hour / hour-minute; basic and
+    extended): where the parser reads them, they denote the duration of their designator spelling - equal both
+    ways, equally hashed, the same length - and the parsed value is usable (nothing raises)."""
+    prop = PROP
+    name = "daltred"
+    model = False
+
+    def gen(self, rng, tier, boost):
+        n = 600 * boost if tier == "quick" else 6000 * boost
+        for _ in range(n):
+            y = rng.choice([0, 1, 4, 9, 10, 99, 2000, 9999, rng.randint(0, 9999)])
+            mo = rng.choice([0, 1, 3, 11, 12, rng.randint(0, 12)])
+            d = rng.choice([0, 1, 2, 28, 30, rng.randint(0, 30)])
+            h = rng.choice([0, 1, 12, 23, rng.randint(0, 23)])
+            mi = rng.choice([0, 1, 30, 59])
+            yield (gens.mode(rng), rng.choice(["y", "ym", "ymdh", "ymdhm", "b-ymdh", "b-ymdhm", "ymd", "b-ymd", "o", "oh"]),
+                   y, mo, d, h, mi)
+
+    def texts(self, a):
+        m, form, y, mo, d, h, mi = a
+        des = lambda **kw: "P" + "".join("%d%s" % (kw[k], u) for k, u in (("y", "Y"), ("mo", "M"), ("d", "D")) if k in kw) + (
+            ("T" + "".join("%d%s" % (kw[k], u) for k, u in (("h", "H"), ("mi", "M")) if k in kw)) if ("h" in kw or "mi" in kw) else "")
+        if form == "y":
+            return "P%04d" % y, des(y=y)
+        if form == "ym":
+            return "P%04d-%02d" % (y, mo), des(y=y, mo=mo)
+        if form == "ymd":
+            return "P%04d-%02d-%02d" % (y, mo, d), des(y=y, mo=mo, d=d)
+        if form == "b-ymd":
+            return "P%04d%02d%02d" % (y, mo, d), des(y=y, mo=mo, d=d)
+        if form == "ymdh":
+            return "P%04d-%02d-%02dT%02d" % (y, mo, d, h), des(y=y, mo=mo, d=d, h=h)
+        if form == "ymdhm":
+            return "P%04d-%02d-%02dT%02d:%02d" % (y, mo, d, h, mi), des(y=y, mo=mo, d=d, h=h, mi=mi)
+        if form == "b-ymdh":
+            return "P%04d%02d%02dT%02d" % (y, mo, d, h), des(y=y, mo=mo, d=d, h=h)
+        if form == "b-ymdhm":
+            return "P%04d%02d%02dT%02d%02d" % (y, mo, d, h, mi), des(y=y, mo=mo, d=d, h=h, mi=mi)
+        if form == "o":
+            return "P%04d-%03d" % (y, d), des(y=y, d=d)
+        return "P%04d-%03dT%02d" % (y, d, h), des(y=y, d=d, h=h)
+
+    def line(self, a):
+        alt, desig = self.texts(a)
+        return "daltred %s %s %s" % (a[0], alt, desig)
+
+    def impl(self, a):
+        from metomi.isodatetime.parsers import DurationParser
+        set_mode(a[0])
+        alt, desig = self.texts(a)
+        parser = DurationParser()
+        try:
+            x = parser.parse(alt)
+        except ValueError:
+            return "alt-refused"
+        y = parser.parse(desig)
+        facts = [x == y, y == x, not (x != y), hash(x) == hash(y), x.get_seconds() == y.get_seconds(),
+                 x.get_days_and_seconds() == y.get_days_and_seconds(), str(x) == str(y), (x + y) == (y + x)]
+        return "ok" if all(facts) else "DIFFERS %s: %s vs %s" % (facts, x, y)
+
+    def oracle(self, a, out):
+        if out in ("ok", "alt-refused"):
+            return None
+        alt, desig = self.texts(a)
+        return "%r is read as a duration but is not usable as / does not equal %r: %s" % (alt, desig, out)
+
+    def label(self, a):
+        return "daltred/%s" % a[1]
+
+
 class DRegex(Op):
     """The generated regex AST run by the Lean matcher against `re` itself on the live patterns."""
     prop = PROP
@@ -1151,5 +1222,5 @@ def ops():
     import common
     common.foreign_configurations()
     import durtextqops
-    return [DStr(), DRoundTrip(), DRoundTripEq(), DParse(), DAlt(), DRegex(), F64(), DFloat(), DFParse(),
+    return [DStr(), DRoundTrip(), DRoundTripEq(), DParse(), DAlt(), DAltReduced(), DRegex(), F64(), DFloat(), DFParse(),
             durtextqops.DurTextQOp()]
